@@ -1160,9 +1160,14 @@ func (p *Parser) parseIntervalExpression() (*ast.IntervalExpression, error) {
 	if p.isNumericLiteral() {
 		numStr := p.currentToken.Literal
 		p.advance()
-		// Expect a unit keyword (DAY, HOUR, MINUTE, SECOND, MONTH, YEAR, WEEK, etc.)
-		unit := strings.ToUpper(p.currentToken.Literal)
-		p.advance()
+		// Expect a unit keyword (DAY, HOUR, MINUTE, SECOND, MONTH, YEAR, WEEK, etc.).
+		// What ends the expression or the statement is not a unit and stays where it is.
+		unit := ""
+		if !p.isType(models.TokenTypeEOF) && !p.isType(models.TokenTypeSemicolon) &&
+			!p.isType(models.TokenTypeRParen) && !p.isType(models.TokenTypeComma) {
+			unit = strings.ToUpper(p.currentToken.Literal)
+			p.advance()
+		}
 		return &ast.IntervalExpression{Value: numStr + " " + unit}, nil
 	}
 
